@@ -10,6 +10,7 @@ import ast
 
 from .. import astutil as A
 from ..fa import FA
+from .effects import Assume, param_truth_atom, call_atom
 
 BLOB = "storage_base.Codec.BlobStrategy"
 FSDS = "storage_filesystem._FilesystemDataSource"
@@ -63,6 +64,9 @@ def check(ck):
     ck.rule(R6, "the memento's content key is the value returned by the codec store, assigned before the memento is written", 2)
 
     fa = FA(ck, BLOB + ".store")
+    P = fa.fi.params
+    ck.need(len(P) >= 4, "BlobStrategy.store: expected (self, data source, key override, object) parameters")
+    ds_p, ov_p, obj_p = P[1], P[2], P[3]
     sha = fa.one([c for c in fa.calls("sha256")], "hashlib.sha256 call")
     ok_alg = A.call_dotted(sha) == "hashlib.sha256"
     ck.ob(R1, fa.key(sha, "algorithm"), ok_alg, "SHA-256" if ok_alg else "the content hash is not hashlib.sha256", fa.where(sha))
@@ -71,54 +75,75 @@ def check(ck):
         ck.ob(R1, fa.key(sha, "same-bytes"), False,
               "the hash is not computed over the local byte string that is written (hashing `%s`)" % A.short(hashed, 40), fa.where(sha))
         return
-    # the digest is used in full
-    hx = [c for c in fa.calls("hexdigest") if A.call_recv(c) is sha]
+    # the digest is used in full (the hexdigest of that very hash object, not a slice of it)
+    hx = [c for c in fa.calls("hexdigest") if A.call_recv(c) is sha or
+          (A.call_recv(c) is not None and fa.nodes(c) and A.norm(fa.expand(A.call_recv(c), fa.nodes(c)[0])) == A.norm(sha))]
     par = fa.pm.get(hx[0]) if hx else None
     ok_hex = bool(hx) and not isinstance(par, ast.Subscript)
     ck.ob(R1, fa.key(sha, "full-digest"), ok_hex, "full hexdigest" if ok_hex else "the digest is truncated or not a hex digest", fa.where(sha))
-    outs = fa.some([c for c in fa.calls("output") if A.dotted(A.call_recv(c)) == "data_source"], "data_source.output call")
+    outs = fa.some(_ds_calls(fa, "output", ds_p), "data_source.output call")
+    no_ov = Assume(fa, param_truth_atom(ov_p, False))
+    with_ov = Assume(fa, param_truth_atom(ov_p, True))
+    hashed_roots = {r for i in fa.nodes(sha) for r in _roots(fa, hashed, i)}
+    any_content = False
     for o in outs:
         stream = o.args[1] if len(o.args) > 1 else A.kwarg(o, "data")
-        names = [n for n in ast.walk(stream) if isinstance(n, ast.Name) and n.id == hashed.id] if stream is not None else []
-        same = bool(names) and all(fa.df.same_defs(hashed.id, a, b) for a in fa.nodes(sha) for b in fa.nodes(o))
-        wrap_ok = isinstance(stream, ast.Call) and A.call_attr(stream) == "BytesIO" and len(stream.args) == 1 and isinstance(stream.args[0], ast.Name)
+        # the stream is BytesIO(<the definition of the bytes that were hashed>), through whatever temporaries
+        same = wrap_ok = stream is not None and bool(fa.nodes(o))
+        for i in fa.nodes(o):
+            for (leaf, n) in (no_ov.cases(stream, i, fa.df.IN) if stream is not None else []):
+                if not (isinstance(leaf, ast.Call) and A.call_attr(leaf) == "BytesIO" and len(leaf.args) == 1 and isinstance(leaf.args[0], ast.Name)):
+                    wrap_ok = False
+                    continue
+                if not (hashed_roots and _roots(fa, leaf.args[0], n) == hashed_roots):
+                    same = False
         ck.ob(R1, fa.key(o, "same-bytes"), same and wrap_ok,
               "the bytes written are the bytes hashed (same definition of `%s`)" % hashed.id if same and wrap_ok else
               "the stream written is not BytesIO(%s) of the hashed definition: stored bytes need not hash to their key" % hashed.id, fa.where(o))
-        # key: content key unless an override is given
+        # key: without an override the output key is the content key (derived from the digest); any other key is
+        # the override key and is used only when an override was given
         keyarg = o.args[0] if o.args else A.kwarg(o, "key")
-        ck.need(isinstance(keyarg, ast.Name), "BlobStrategy.store: output key is not a local name")
-        defs = []
-        for i in fa.nodes(o):
-            defs += fa.df.reaching(i, keyarg.id)
+        ck.need(keyarg is not None, "BlobStrategy.store: output call without a key")
         ok_key = True
         why = []
-        content_defs = [d for d in defs if d.value is not None and "call:output_key_for_content_key" in fa.df.deps(d.value, d.node)]
-        other = [d for d in defs if d not in content_defs]
-        if not content_defs:
+        for i in no_ov.live(o):
+            for (leaf, n) in no_ov.cases(keyarg, i):
+                dd = fa.df.deps(leaf, n)
+                if "call:output_key_for_content_key" not in dd:
+                    ok_key = False
+                    why.append("without an override the output key can be `%s`, which is not built from the content hash" % A.short(leaf, 50))
+                elif "call:sha256" not in dd or "call:hexdigest" not in dd:
+                    ok_key = False
+                    why.append("content key does not derive from the sha256 hexdigest")
+                else:
+                    any_content = True
+        for i in with_ov.live(o):
+            for (leaf, n) in with_ov.cases(keyarg, i):
+                dd = fa.df.deps(leaf, n)
+                if "call:output_key_for_content_key" in dd:
+                    if "call:sha256" not in dd or "call:hexdigest" not in dd:
+                        ok_key = False
+                        why.append("content key does not derive from the sha256 hexdigest")
+                elif not ("call:output_key_for_override_key" in dd and "param:" + ov_p in dd):
+                    ok_key = False
+                    why.append("the output key is redefined to something that is neither the content key nor the override key (%s)" % A.short(leaf, 50))
+        o._c07_key = (ok_key, why)
+    for o in outs:
+        ok_key, why = o._c07_key
+        if not any_content:
             ok_key = False
-            why.append("no definition of the output key derives from the content hash")
-        for d in content_defs:
-            dd = fa.df.deps(d.value, d.node)
-            if "call:sha256" not in dd or "call:hexdigest" not in dd:
-                ok_key = False
-                why.append("content key does not derive from the sha256 hexdigest")
-        for d in other:
-            g = fa.enclosing(d.stmt, ast.If)
-            if not (d.value is not None and "call:output_key_for_override_key" in fa.df.deps(d.value, d.node)
-                    and g is not None and A.norm(g.test) == "key_override" and d.stmt in g.body):
-                ok_key = False
-                why.append("the output key is redefined outside `if key_override:` (%s)" % A.head(d.stmt))
-        ck.ob(R1, fa.key(o, "key"), ok_key, "output key = content key unless overridden" if ok_key else "; ".join(why), fa.where(o))
+            why = why + ["no definition of the output key derives from the content hash"]
+        ck.ob(R1, fa.key(o, "key"), ok_key, "output key = content key unless overridden" if ok_key else "; ".join(sorted(set(why))), fa.where(o))
     hd = set()
     for i in fa.nodes(sha):
         hd |= fa.df.deps(hashed, i)
-    ok_enc = "callq:self.encode" in hd and "param:obj" in hd
+    ok_enc = "callq:self.encode" in hd and "param:" + obj_p in hd
     ck.ob(R1, fa.key(sha, "bytes-are-encoding"), ok_enc, "the hashed bytes are the encoding of the stored object" if ok_enc else
           "the hashed bytes are not self.encode(obj)", fa.where(sha))
     ck_f = FA(ck, "storage_base.Codec.Strategy.output_key_for_content_key")
     r = ck_f.one(ck_f.returns(), "return")
-    okc = "attr:content_key.key" in ck_f.deps(r.value) and any(s.startswith("c/") for s in A.strings_in(r.value))
+    cp = ck_f.fi.params[1] if len(ck_f.fi.params) > 1 else "content_key"
+    okc = "attr:%s.key" % cp in ck_f.deps(r.value) and any(s.startswith("c/") for s in A.strings_in(r.value))
     ck.ob(R1, ck_f.key(r), okc, "content keys live under c/<hash>" if okc else "content key path no longer derives from the hash", ck_f.where(r))
 
     # ---- R2
@@ -132,39 +157,82 @@ def check(ck):
     _rest(ck, fa, R3, R4, R5, R6)
 
 
+def _ds_calls(fa, name, recv_param):
+    """Calls `<data source>.name(...)` where the receiver is the given parameter (through any alias)."""
+    out = []
+    for c in fa.calls(name):
+        rv = A.call_recv(c)
+        if rv is None or not fa.nodes(c):
+            continue
+        if fa.xnorm(rv, fa.nodes(c)[0]) == recv_param:
+            out.append(c)
+    return out
+
+
+def _roots(fa, name_expr, node_id, depth=8):
+    """The definitions a local name ultimately stands for, following plain aliases `a = b`:
+    a set of (cfg node, name) — ('param', name) for a parameter."""
+    out = set()
+    if not isinstance(name_expr, ast.Name):
+        return out
+    for d in fa.df.reaching(node_id, name_expr.id):
+        if d.kind == "param":
+            out.add(("param", d.name))
+        elif d.kind == "assign" and isinstance(d.value, ast.Name) and depth > 0:
+            sub = _roots(fa, d.value, d.node, depth - 1)
+            out |= sub if sub else {(d.node, d.name)}
+        else:
+            out.add((d.node, d.name))
+    return out
+
+
 def _check_dedupe(ck, fa, ex, outs, R2):
-    ex_nodes = [i for i in fa.nodes(ex) if fa.cfg.node(i).kind == "test"]
-    ck.need(ex_nodes, "BlobStrategy.store: existence test is not a branch condition")
-    ov_nodes = [n.id for n in fa.cfg.nodes if n.kind == "test" and A.norm(n.ast) == "key_override"]
+    """Decided on what is reachable under assumptions about the two facts that matter (is there an override?
+    does the content key exist?), not on the shape of the tests."""
+    P = fa.fi.params
+    ov_p = P[2] if len(P) > 2 else "key_override"
+    EX = ("exists_nonversioned",)
+    present = Assume(fa, param_truth_atom(ov_p, False, call_atom(EX, True)))
+    absent = Assume(fa, param_truth_atom(ov_p, False, call_atom(EX, False)))
+    with_ov = Assume(fa, param_truth_atom(ov_p, True))
     out_nodes = fa.nodes_all(outs)
-    def edge_ok(s, d, l):
-        if s in ov_nodes and l == "T":
-            return False
-        if s in ex_nodes and l == "F":
-            return False
-        return True
-    live = fa.cfg.reach([fa.cfg.entry], edge_ok=edge_ok)
+    live = present.reach()
     ok = not (set(out_nodes) & live)
     ck.ob(R2, fa.key(ex, "no-write-when-present"), ok, "output is reached only under an override or when the content key is absent" if ok else
           "a new object version is written although the content key exists and no override was given", fa.where(ex))
     # under an override the new bytes are always written (the override location is mutable: the
     # last write must win)
-    for v in ov_nodes:
-        starts = [d for (d, l) in fa.cfg.succ[v] if l == "T"]
-        r = fa.cfg.reach(starts, removed=out_nodes)
-        okw = fa.cfg.exit not in r
-        ck.ob(R2, fa.key(fa.cfg.node(v).ast, "override-always-writes"), okw, "with a key override the object is always written" if okw else
-              "with a key override store() can return without writing (the reuse shortcut also fires for override keys): a second result "
-              "written under the same override key is dropped and reads return the first one", fa.where(ex))
-    # through the T edge: returns get_versioned_key(key) of the same key
-    tl = fa.cfg.reach(ex_nodes, edge_ok=lambda s, d, l: not (s in ex_nodes and l == "F"), include_start=False)
-    rets = [fa.cfg.node(i).ast for i in tl if fa.cfg.node(i).kind == "stmt" and isinstance(fa.cfg.node(i).ast, ast.Return)]
-    okr = bool(rets) and all(isinstance(x.value, ast.Call) and A.call_attr(x.value) == "get_versioned_key"
-                             and [A.norm(a) for a in x.value.args] == [A.norm(ex.args[0])] for x in rets[:1])
+    ov_tests = [n for n in fa.cfg.nodes if n.kind == "test" and n.id in fa.cfg.reachable_nodes() and with_ov.truth(n.ast, n.id) is not None]
+    okw = fa.cfg.exit not in with_ov.reach(removed=out_nodes)
+    ck.ob(R2, fa.key(ov_tests[0].ast if ov_tests else None, "override-always-writes"), okw, "with a key override the object is always written" if okw else
+          "with a key override store() can return without writing (the reuse shortcut also fires for override keys): a second result "
+          "written under the same override key is dropped and reads return the first one", fa.where(ex))
+    # content key present, no override: what is returned is get_versioned_key(<that content key>)
+    ex_keys = set()
+    for i in fa.nodes(ex):
+        ex_keys |= present.texts(ex.args[0], i) if ex.args else set()
+    rets = [fa.cfg.node(i).ast for i in sorted(live) if fa.cfg.node(i).kind == "stmt" and isinstance(fa.cfg.node(i).ast, ast.Return)]
+    okr = bool(rets) and bool(ex_keys)
+    for x in rets:
+        for i in present.live(x):
+            for (leaf, n) in (present.cases(x.value, i) if x.value is not None else [(None, i)]):
+                if not (isinstance(leaf, ast.Call) and A.call_attr(leaf) == "get_versioned_key" and len(leaf.args) == 1
+                        and present.texts(leaf.args[0], n) == ex_keys):
+                    okr = False
     first = rets[0] if rets else ex
     ck.ob(R2, fa.key(first, "reuse-existing"), okr, "the existing versioned key of the same key is returned" if okr else
           "the dedupe path does not return get_versioned_key(<content key>)", fa.where(first))
-    exarg_ok = ex.args and isinstance(ex.args[0], ast.Name) and ex.args[0].id == (outs[0].args[0].id if outs[0].args and isinstance(outs[0].args[0], ast.Name) else None)
+    # the key tested is the content key, and it is the key that is written when the test fails
+    exarg_ok = bool(ex_keys)
+    for i in fa.nodes(ex):
+        for (leaf, n) in (absent.cases(ex.args[0], i) if ex.args else []):
+            if "call:output_key_for_content_key" not in fa.df.deps(leaf, n):
+                exarg_ok = False
+    for o in outs:
+        keyarg = o.args[0] if o.args else A.kwarg(o, "key")
+        for i in absent.live(o):
+            if keyarg is None or absent.texts(keyarg, i) != ex_keys:
+                exarg_ok = False
     ck.ob(R2, fa.key(ex, "tests-content-key"), bool(exarg_ok), "the existence test is on the content key" if exarg_ok else
           "the existence test is not on the key that would be written", fa.where(ex))
 
